@@ -23,6 +23,57 @@ type scopeClass struct {
 	classes map[string]bool // outer | inner | unknown(...)
 	sites   []string
 	node    ast.Node
+	// byPos: for evaluated forms found at a constant position of the operator's arguments
+	// ("0.1" = args.Cells[0].Cells[1]), the classes seen at that position; unpositioned counts
+	// the sites whose form is not at a constant position (loop variables over a binding list)
+	byPos        map[string]map[string]bool
+	unpositioned int
+}
+
+// constPathsOf: the constant-index access paths (lists of indexes through .Cells) by which
+// e reaches root, following every definition of the locals involved.
+func constPathsOf(info *types.Info, body ast.Node, e ast.Expr, root types.Object, depth int) [][]int {
+	if depth > 5 || root == nil {
+		return nil
+	}
+	e = ast.Unparen(e)
+	switch x := e.(type) {
+	case *ast.Ident:
+		o := identObj(info, x)
+		if o == nil {
+			return nil
+		}
+		if o == root {
+			return [][]int{{}}
+		}
+		var out [][]int
+		ast.Inspect(body, func(n ast.Node) bool {
+			if as, ok := n.(*ast.AssignStmt); ok && len(as.Lhs) == len(as.Rhs) {
+				for i, l := range as.Lhs {
+					if identObj(info, l) == o {
+						out = append(out, constPathsOf(info, body, as.Rhs[i], root, depth+1)...)
+					}
+				}
+			}
+			return true
+		})
+		return out
+	case *ast.IndexExpr:
+		se, ok := ast.Unparen(x.X).(*ast.SelectorExpr)
+		if !ok || se.Sel.Name != "Cells" {
+			return nil
+		}
+		k, isC := intConst(info, x.Index)
+		if !isC {
+			return nil
+		}
+		var out [][]int
+		for _, p := range constPathsOf(info, body, se.X, root, depth+1) {
+			out = append(out, append(append([]int(nil), p...), k))
+		}
+		return out
+	}
+	return nil
 }
 
 func (sc scopeClass) String() string {
@@ -278,6 +329,31 @@ func (sd *scopeSide) walk(fr scopeFrame, out *scopeClass, ord *ordinal, depth in
 			if on {
 				cl := sd.classify(fr, env, 0)
 				out.classes[cl] = true
+				positioned := false
+				for _, f := range forms {
+					for _, p := range constPathsOf(info, fr.u.Decl.Body, f, fr.root, 0) {
+						if len(p) >= 2 {
+							q := append([]int(nil), p...)
+							q[0] -= fr.rootIdx
+							var ks []string
+							for _, k := range q {
+								ks = append(ks, fmt.Sprint(k))
+							}
+							key := strings.Join(ks, ".")
+							if out.byPos == nil {
+								out.byPos = map[string]map[string]bool{}
+							}
+							if out.byPos[key] == nil {
+								out.byPos[key] = map[string]bool{}
+							}
+							out.byPos[key][cl] = true
+							positioned = true
+						}
+					}
+				}
+				if !positioned {
+					out.unpositioned++
+				}
 				out.sites = append(out.sites, ord.next(label)+"="+cl)
 				if out.node == nil {
 					out.node = ce
@@ -549,7 +625,7 @@ func (c *Ctx) evaluatorSide() *scopeSide {
 	return &scopeSide{c: c, envType: "lisp.LEnv",
 		site: func(info *types.Info, ce *ast.CallExpr) ([]ast.Expr, ast.Expr, string, bool) {
 			se, ok := ast.Unparen(ce.Fun).(*ast.SelectorExpr)
-			if !ok || (se.Sel.Name != "Eval" && se.Sel.Name != "Lambda") {
+			if !ok || (se.Sel.Name != "Eval" && se.Sel.Name != "Lambda" && se.Sel.Name != "Terminal") {
 				return nil, nil, "", false
 			}
 			if tv, ok := info.Types[se.X]; !ok || !strings.HasSuffix(tv.Type.String(), "lisp.LEnv") {
@@ -705,6 +781,28 @@ func (c *Ctx) analyzerValueScope(form string) (scopeClass, FuncUnit, string) {
 	return out, u, ""
 }
 
+// samePositionClasses: at every position both sides know, the class sets are equal (a position
+// only one side visits is ANALYZE.control-positions' business); at least one position is shared.
+func samePositionClasses(a, b map[string]map[string]bool) bool {
+	shared := 0
+	for k, ca := range a {
+		cb, ok := b[k]
+		if !ok {
+			continue
+		}
+		shared++
+		if len(ca) != len(cb) {
+			return false
+		}
+		for c := range ca {
+			if !cb[c] {
+				return false
+			}
+		}
+	}
+	return shared > 0
+}
+
 var scopeForms = []string{"let", "let*", "flet", "labels", "dotimes"}
 
 func init() {
@@ -722,6 +820,10 @@ func init() {
 				case len(ev.classes) == 0 || len(an.classes) == 0:
 					obs = append(obs, mkOb(c, "SCOPE.agree", au, construct, au.Decl, Undecided,
 						fmt.Sprintf("no value-form evaluation/resolution site recognised (evaluator %s: %v; analyzer %s: %v)", eu.Name(), ev.sites, au.Name(), an.sites), false))
+				case ev.unpositioned == 0 && an.unpositioned == 0 && len(ev.byPos) > 0 && len(an.byPos) > 0 && !strings.Contains(ev.String(), "unknown") && !strings.Contains(an.String(), "unknown") && samePositionClasses(ev.byPos, an.byPos):
+					// every value form sits at a fixed position of the operator's arguments: compared position by position
+					obs = append(obs, mkOb(c, "SCOPE.agree", au, construct, an.node, Proved,
+						fmt.Sprintf("position by position: evaluator %s (%s); analyzer %s (%s)", eu.Name(), strings.Join(ev.sites, ", "), au.Name(), strings.Join(an.sites, ", ")), true))
 				case len(ev.classes) == 1 && len(an.classes) == 1 && ev.String() == an.String() && !strings.HasPrefix(ev.String(), "unknown"):
 					obs = append(obs, mkOb(c, "SCOPE.agree", au, construct, an.node, Proved,
 						fmt.Sprintf("value forms: evaluator %s uses the %s environment (%s); analyzer %s resolves in the %s scope (%s)", eu.Name(), ev, strings.Join(ev.sites, ", "), au.Name(), an, strings.Join(an.sites, ", ")), true))
